@@ -506,6 +506,59 @@ def _h_validated_roots(ctx, R, rid):
     R.floor("raw generators with a validated work list", 5)
 
 
+def _leaf_pruning(ctx, R, rid, closure):
+    """wires and cables live in every definition that has cables — also in one that has no child instances (a pass-through or
+    wire-only cell).  In the two modules that enumerate or trace wires / cables, descent into an instance's definition may be
+    pruned by `is_leaf()` (no children AND no cables) but not by the absence of children alone."""
+    P = ctx.P
+    n = 0
+    hits = 0
+    for m in ("get_hwires", "get_hcables"):
+        mod = P.module(UTIL + m + ".py")
+        for f in mod.all_funcs():
+            is_closure = f.name in CLOSURE_FUNCS or f.name.startswith(("_get_hpins_from", "_get_inner_", "_get_outer_"))
+            if is_closure != closure:
+                continue
+            n += 1
+            for t in walk_local(f.node):
+                test = None
+                if isinstance(t, (ast.If, ast.While, ast.IfExp)):
+                    test = t.test
+                elif isinstance(t, ast.comprehension) and t.ifs:
+                    test = ast.BoolOp(op=ast.And(), values=list(t.ifs)) if len(t.ifs) > 1 else t.ifs[0]
+                if test is None:
+                    continue
+                for x in ast.walk(test):
+                    bad = None
+                    if isinstance(x, ast.Attribute) and x.attr == "children" and not isinstance(getattr(x, "_parent", None), (ast.Attribute, ast.Call)):
+                        par = getattr(x, "_parent", None)
+                        if not (isinstance(par, ast.Compare) and isinstance(par.ops[0], (ast.In, ast.NotIn)) and par.comparators[0] is x):
+                            bad = x
+                    if isinstance(x, ast.Call) and norm(x.func) == "len" and x.args and norm(x.args[0]).endswith(".children"):
+                        bad = x
+                    if bad is not None:
+                        # harmless form: `if X.children: for c in X.children: ...` and nothing else
+                        body = getattr(t, "body", None)
+                        if isinstance(t, ast.If) and isinstance(body, list) and len(body) == 1 and isinstance(body[0], ast.For) \
+                                and norm(body[0].iter) == norm(bad if isinstance(bad, ast.Attribute) else bad.args[0]) and not t.orelse:
+                            continue
+                        hits += 1
+                        R.bad(rid, "%s|children-as-leaf-test" % f.key, f.loc(t),
+                              "%s decides on `%s` whether to look inside an instance: a definition without child instances can still hold cables "
+                              "(a pass-through cell), so its wires are skipped — the test has to be is_leaf()" % (f.qualname, short(test, 60)))
+    if not hits:
+        R.ok(rid, "no descent into a definition is pruned on the absence of children alone (%d functions)" % n, UTIL + "get_hwires.py")
+    R.count("functions scanned for leaf tests (%s)" % rid, n)
+    R.floor("functions scanned for leaf tests (%s)" % rid, 3)
+    # positive example: the recogniser must see the pattern it is there for
+    from ..core import Module
+    probe = Module("probe/leaf.py", "def w(h, out):\n    for c in h.item.reference.children:\n        if c.reference and c.reference.children:\n            out.append(c)\n")
+    pf = probe.functions["w"]
+    seen = [x for t in walk_local(pf.node) if isinstance(t, ast.If) for x in ast.walk(t.test) if isinstance(x, ast.Attribute) and x.attr == "children"]
+    if len(seen) != 1:
+        raise AnalysisError("%s positive example no longer matches" % rid)
+
+
 # ------------------------------------------------------------------------------------------------
 @register("C11",
           "Static analysis of hierarchical_reference.py and the five hierarchical query modules: H1 HRef objects are constructed only in "
@@ -713,6 +766,8 @@ def check_c11(ctx, R):
     _h_yield_guards(ctx, R, "H11")
     R.rule("H12", "a reference taken from the caller or the work list is used only after its validity test, for every item kind")
     _h_validated_roots(ctx, R, "H12")
+    R.rule("H13", "the wire / cable enumerations descend into wire-only cells: descent is pruned by is_leaf(), never by `children` alone")
+    _leaf_pruning(ctx, R, "H13", closure=False)
     # H8
     R.rule("H8", "the ancestor walks of is_valid / is_unique use the cursor variable, not self")
     for pname in ("is_valid", "is_unique"):
@@ -837,6 +892,8 @@ def check_c12(ctx, R):
     R.floor("queries with a selection option (H5)", 8)
     R.rule("H7b'", "the occurrence enumeration the traces start from is closed under discovery")
     _worklist_closure(ctx, R, "H7b'")
+    R.rule("H13'", "the closure follows nets through wire-only cells: no step is pruned on the absence of child instances")
+    _leaf_pruning(ctx, R, "H13'", closure=True)
     R.rule("H11'", "each hierarchical pin / wire of a trace is reported once, de-duplicated on the value yielded")
     _h_yield_guards(ctx, R, "H11'", closures=True)
     # H9
